@@ -1184,7 +1184,7 @@ func dbtype(abitype string, d []byte) any {
 		return false
 	case abitype == "string":
 		return string(d)
-	case abitype == "bytes":
+	case abitype == "bytes", strings.HasPrefix(abitype, "bytes["):
 		if len(d) == 0 {
 			return []byte{}
 		}
